@@ -27,6 +27,7 @@ fn main() {
         std::process::exit(1);
     }
     let thorough = run.tier == Tier::Thorough;
+    vcommon::en::WRAP_LIES.store(true, std::sync::atomic::Ordering::Relaxed);
     // record catalogues (valid records of every kind, TLS and DTLS)
     let hs = cat::small_handshake_messages();
     let mut recs: Vec<Vec<u8>> = vec![
